@@ -146,6 +146,10 @@ class ProbDetGrammar(TaggedDetGrammar[float, U, V, W]):
         start: Optional[Tuple[Type, U]] = None,
     ) -> float:
         try:
+            if not self.__contains_rec__(
+                program, start or self.start, self.start_information()
+            )[0]:
+                return 0
             return self.reduce_derivations(
                 lambda current, S, P, _: current * self.tags[S][P],
                 1.0,
